@@ -203,6 +203,10 @@ pub struct World {
     /// meets the same instance before and after the key changes
     pub pke: Vec<PkeEntry>,
     pub pke_probes: bool,
+    /// before a checked rekey / prune / keygen, the same policy text is first used on a second
+    /// master key ("another tenant": same names, identifiers allocated in another order) through
+    /// the same instance: nothing of it may leak into the call under test
+    pub tenant_probe: bool,
 }
 
 pub struct PkeEntry {
@@ -269,6 +273,7 @@ impl World {
             full_matrix: false,
             pke: vec![],
             pke_probes: false,
+            tenant_probe: false,
         };
         w.observe_msk("setup", &[(vec![], 0)]);
         let m = w.model.mpk();
@@ -564,8 +569,37 @@ impl World {
 
     /// Executes one operation on the real objects and on the model; returns whether the
     /// implementation returned Ok.
+    /// Uses `policy` on a second master key with the same names but another id layout.
+    fn tenant_interference(&mut self, policy: &str) {
+        let Ok((mut other, _)) = self.cc.setup() else { return };
+        let st = self.model.st.clone();
+        for (dn, d) in st.dims.iter().rev() {
+            let _ = if d.ordered { other.access_structure.add_hierarchy(dn.clone()) } else { other.access_structure.add_anarchy(dn.clone()) };
+            // highest rank first, each inserted at the bottom: same ranks, reversed identifiers
+            for a in d.attrs.iter().rev() {
+                let _ = other.access_structure.add_attribute(Self::qa(dn, &a.name), hint(a.hybrid), None);
+            }
+        }
+        if self.cc.update_msk(&mut other).is_err() {
+            return;
+        }
+        let Ok(ap) = AccessPolicy::parse(policy) else { return };
+        let _ = guarded!(self.cc.rekey(&mut other, &ap));
+        let _ = guarded!(self.cc.generate_user_secret_key(&mut other, &ap));
+        let _ = guarded!(self.cc.prune_master_secret_key(&mut other, &ap));
+        if let Ok(Ok(mpk)) = guarded!(other.mpk()) {
+            let _ = guarded!(self.cc.encaps(&mpk, &ap));
+        }
+        self.bump("tenant_interferences");
+    }
+
     pub fn apply(&mut self, op: &Op, mode: Mode) -> bool {
         self.bump("ops");
+        if mode == Mode::Check && self.tenant_probe {
+            if let Op::Rekey(p) | Op::Prune(p) | Op::Keygen(p) = op {
+                self.tenant_interference(p);
+            }
+        }
         let before_msk = ser(&self.msk);
         let before_usk: Option<Vec<u8>> = match op {
             Op::Refresh { k, .. } => Some(ser(&self.usks[*k].usk)),
